@@ -117,6 +117,8 @@ class ModSpec:
         self.fns = []
         self.injects = []
         self.uses = []
+        self.trait_injects = {}   # trait name -> [(text, origin)]
+        self.impl_injects = []    # (regex, text, origin)
 
 
 class UnitSpec:
@@ -184,6 +186,21 @@ def parse_contract_file(path, unit=None, seen=None):
             elif d == '@include':
                 parse_contract_file(os.path.join(os.path.dirname(path), arg), unit, seen)
                 cur_mod = None
+                cur_fn = None
+            elif d in ('@trait_inject', '@impl_inject'):
+                buf = []
+                start = i
+                while i < len(lines) and lines[i].strip() != '@end':
+                    buf.append(lines[i])
+                    i += 1
+                if i >= len(lines):
+                    raise Undecided('%s:%d: %s without @end' % (path, start, d))
+                i += 1
+                origin = '%s:%d' % (os.path.basename(path), start + 1)
+                if d == '@trait_inject':
+                    cur_mod.trait_injects.setdefault(arg, []).append(('\n'.join(buf), origin))
+                else:
+                    cur_mod.impl_injects.append((arg.strip().strip('/'), '\n'.join(buf), origin))
                 cur_fn = None
             elif d in ('@prelude', '@inject'):
                 buf = []
@@ -694,9 +711,7 @@ class FnAsm:
                     raise Undecided('%s: declared substitution /%s/ no longer matches' % (self.qual, rx))
                 self.log.append('SUBST(%s): /%s/ -> /%s/ x%d' % (reason, rx, rep, cnt))
                 body = body2
-        hdrs = rules.loop_headers(body)
-        if len(hdrs) != n_loops_before:
-            raise Undecided('%s: loop count changed by rules (%d -> %d)' % (self.qual, n_loops_before, len(hdrs)))
+        hdrs = rules.loop_headers(body)   # ordinals refer to the rewritten body (R7/R8 add loops in textual order)
         inserts = []   # (pos, order, text, meta)
         if sp:
             for n, ls in sorted(sp.loops.items()):
@@ -844,6 +859,18 @@ def collect_unit(items, unit):
             e = entry(hits[0])
             e['whole'] = True
             e['opts'].update(opts)
+        for rxs, text, origin in ms.impl_injects:
+            rx = re.compile(rxs)
+            hits = [it for it in ch if it.kind == 'impl' and rx.search(norm_header(it.header))]
+            if not hits:
+                raise Undecided('%s: @impl_inject /%s/ matches no impl in the current source' % (mp, rxs))
+            for it in hits:
+                entry(it).setdefault('inject', []).append((text, origin))
+        for tn, blocks in ms.trait_injects.items():
+            hits = [it for it in ch if it.kind == 'trait' and it.name == tn]
+            if len(hits) != 1:
+                raise Undecided('%s: @trait_inject %s: %d matches' % (mp, tn, len(hits)))
+            entry(hits[0]).setdefault('inject', []).extend(blocks)
         for fs in ms.fns:
             sel = fs.selector
             if sel.startswith('trait '):
@@ -1132,8 +1159,11 @@ def assemble(unit, src):
                       or (is_trait_decl and c.kind == 'fn' and c.body_open is None)
                       or (is_trait_decl and c.kind in ('const', 'type'))
                       or any(c is cc for cc, _ in e['consts'])]
-            if normal or e['whole']:
+            if normal or e['whole'] or e.get('inject'):
                 out.emit(hdr + ' {\n')
+                for text, origin in e.get('inject', []):
+                    out.emit('// ---- injected from %s\n' % origin)
+                    out.emit(text + '\n', {'kind': 'spec', 'fn': mp, 'tags': [], 'text': origin})
                 for c in it.children:
                     if not any(c is n for n in normal):
                         continue
